@@ -18,12 +18,9 @@ import (
 
 func long() bool { return os.Getenv("GOGEN_LONG") != "" }
 
-// genN generates n programs with distinct seeds (rapid.Check drives Generate).
+// genN generates n programs from fixed seeds 0..n-1 (reproducible sample).
 func genN(t *testing.T, n int, f func(p *Program)) {
 	t.Helper()
-	// rapid.Check's number of cases comes from -rapid.checks; to be
-	// independent of flags we use rapid.MakeCheck-free sampling: a Custom
-	// generator run through Example would not shrink, so simply loop.
 	gen := rapid.Custom(func(rt *rapid.T) *Program { return Generate(rt, DefaultConfig()) })
 	for i := 0; i < n; i++ {
 		f(gen.Example(i))
